@@ -79,7 +79,13 @@ RULE = ('cases 0-15 = the 16 factory flag tuples (get_predefined must return a c
         'must not raise on any class (non-trivial: the added or the removed model ran transition callbacks). "ordered" = '
         'a flat machine (>= 2 states) one trigger of which is created by add_ordered_transitions(states | None, trigger, '
         'loop, loop_includes_initial, conditions=, unless=, before=, after=, prepare=) with per-position / broadcast / '
-        'absent option lists of distinct callbacks, on the class under test; the Coq engines get the expansion. Each case runs on 12 classes x '
+        'absent option lists of distinct callbacks, on the class under test; the Coq engines get the expansion. '
+        '"reconf" = a flat machine (<= 1 check per transition, no raising callback) whose history is interleaved with '
+        'remove_transition(trigger[, source=][, dest=]) in every filter combination (the Coq engines get the remaining '
+        'transitions under a fresh event id), the trigger being used again; 15%% of the calls use a name the machine does '
+        'not know, under every ignore_invalid_triggers setting of machine and state: the non-nested classes must equal '
+        'Machine (False / AttributeError raised directly), the nested ones the Coq hierarchical engine (AttributeError '
+        'routed through on_exception / finalize). Each case runs on 12 classes x '
         '{by name, through the factory} x diagram backends %s (unavailable here: %s). Non-trivial: the base run '
         'executed a transition after a failed check, or processed >= 2 events / raised, and at least one async class '
         'was compared inside the async envelope; distinct by case hash.' % (BACKENDS, MISSING_BACKENDS))
@@ -565,6 +571,82 @@ def gen_ordered(rng):
     return c
 
 
+UNKNOWN_EVENT = 77          # an event name no generated machine defines
+
+
+def gen_reconf(rng):
+    """reconfiguration + unknown names: a flat machine (<= 1 check per transition, no raising callback: always inside
+    the async envelope) whose history is interleaved with remove_transition(trigger[, source][, dest]) calls in every
+    filter combination; the trigger is used again afterwards; some calls use a name the machine does not know
+    (ignored when ignore_invalid_triggers holds for the machine or the current state, AttributeError otherwise)"""
+    c = flat.gen_case(rng, malformed=False, p_unknown=0.0, hist_len=1)
+    m = c['machine']
+    for _, ts in m['events']:
+        for t in ts:
+            t['conds'] = t['conds'][:1]
+    ne = len(m['events'])
+    live = dict((e, [dict(t) for t in ts]) for e, ts in m['events'])
+    ops, j = [], [0]
+
+    def trigs(n, prefer=None):
+        for _ in range(n):
+            x = rng.random()
+            if x < 0.15:
+                e = UNKNOWN_EVENT
+            elif prefer is not None and x < 0.7:
+                e = prefer
+            else:
+                e = rng.randrange(ne)
+            ops.append(['trig', rng.choice([0, 0, 2]), e, 100 + j[0]])
+            j[0] += 1
+    trigs(rng.randint(1, 3))
+    for _ in range(rng.randint(1, 3)):
+        present = [e for e in live if live[e]]
+        if not present:
+            break
+        e = rng.choice(present)
+        mode = rng.choice(['src', 'dst', 'both', 'dst', 'both', 'none'])
+        t0 = rng.choice(live[e])
+        src = t0['src'] if mode in ('src', 'both') else None
+        dsts = [t['dst'] for t in live[e] if t['dst'] is not None and (src is None or t['src'] == src)]
+        dst = (rng.choice(dsts) if dsts else c['init']) if mode in ('dst', 'both') else None
+        ops.append(['remove', e, src, dst])
+        live[e] = [t for t in live[e] if not ((src is None or t['src'] == src) and (dst is None or t['dst'] == dst))]
+        trigs(rng.randint(2, 4), prefer=e)
+    c['ops'] = ops
+    c['queued'] = 0
+    c.pop('cls', None)
+    c.pop('history', None)
+    c['sub'] = 'reconf'
+    return c
+
+
+def reconf_model_case(case):
+    """the flat case handed to the Coq engines: a removal re-binds the trigger name to a FRESH event that keeps the
+    remaining transitions (none left: the name becomes unknown) — what Machine.remove_transition does, as data"""
+    m = copy.deepcopy(case['machine'])
+    events = [[e, ts] for e, ts in m['events']]
+    cur = dict((e, e) for e, _ in events)
+    nxt = max([e for e, _ in events] + [UNKNOWN_EVENT]) + 1
+    hist = []
+    for op in case['ops']:
+        if op[0] == 'trig':
+            hist.append([op[1], cur.get(op[2], UNKNOWN_EVENT), op[3]])
+        else:
+            _, e, src, dst = op
+            old = [ts for k, ts in events if k == cur.get(e)]
+            rest = [t for t in (old[0] if old else [])
+                    if not ((src is None or t['src'] == src) and (dst is None or t['dst'] == dst))]
+            if rest:
+                events.append([nxt, rest])
+                cur[e] = nxt
+            else:
+                cur.pop(e, None)
+            nxt += 1
+    m['events'] = events
+    return dict(machine=m, env=case['env'], model=case.get('model', 0), init=case['init'], history=hist)
+
+
 def gen_batch(seed, n, tier):
     cases = []
     for k in ALL_FLAGS:
@@ -572,13 +654,15 @@ def gen_batch(seed, n, tier):
     crash_bases = []
     for i in range(n):
         rng = random.Random('C09-%d-%d' % (seed, i))
-        stream = ('flat', 'crash', 'queue', 'dispatch', 'crash', 'pickle', 'may', 'queue', 'ordered')[i % 9]
+        stream = ('flat', 'crash', 'queue', 'dispatch', 'crash', 'pickle', 'may', 'queue', 'ordered', 'reconf')[i % 10]
         if stream == 'queue':
             cases.append(gen_queue(rng))
         elif stream == 'dispatch':
             cases.append(gen_dispatch(rng))
         elif stream == 'pickle':
             cases.append(gen_pickle(rng))
+        elif stream == 'reconf':
+            cases.append(gen_reconf(rng))
         else:
             follow = rng.randint(2, 4) if stream == 'crash' else 0     # events after the crashing call
             if stream == 'ordered':
@@ -631,6 +715,8 @@ def enc(case):
         return [3, enc_dispatch(case)]
     if case['sub'] == 'pickle':
         return enc_pickle(case)
+    if case['sub'] == 'reconf':
+        return [0, flat.enc_case(reconf_model_case(case))]
     if flat_via_queue(case):
         # a queued machine: the faithful model is Queue.drain over the engine (a queued call returns True unless
         # it raises) — one model, no callback actions
@@ -1030,6 +1116,57 @@ def run_pickle_on(case, cls, flags, backend):
         runner.close()
 
 
+def run_reconf_on(case, cls, flags, backend):
+    is_async = bool(flags[3])
+    runner = Runner(is_async)
+    try:
+        world = (AWorld if is_async else CWorld)(case['env'], case['machine']['send'])
+        world.state_of = flat.state_int
+        world.perform = lambda a, item: None
+
+        async def noop(a, item):
+            return None
+        world.aperform = noop
+        c2 = dict(case)
+        c2['history'] = []
+        machine, model = flat.build_machine(c2, world, cls=cls,
+                                            extra_kwargs=dict(queued=False, **class_kwargs(flags, backend)))
+        world.model_ids[id(model)] = case.get('model', 0)
+        world.current_model = model
+        out, free = [], 1
+        for op in case['ops']:
+            world.items = []
+            if op[0] == 'trig':
+                _, k, e, a = op
+                tok = flat.Token(a)
+                name = 'e%d' % e
+                try:
+                    if k == 0:
+                        r = runner.call(lambda: model.trigger(name, tok, k=tok))
+                    else:
+                        r = runner.call(lambda: getattr(model, name)(tok, k=tok))
+                    res = [0, bool(r)]
+                except BaseException as ex:  # noqa
+                    res = [1, classify_exc(ex)]
+                out.append([world.items, res, flat.state_int(model)])
+            else:
+                _, e, src, dst = op
+                kw = {}
+                if src is not None:
+                    kw['source'] = 's%d' % src
+                if dst is not None:
+                    kw['dest'] = 's%d' % dst
+                try:
+                    machine.remove_transition('e%d' % e, **kw)
+                except BaseException as ex:  # noqa — reconfiguring must not fail on any class
+                    out.append([world.items, [1, ['op-raised', 'remove_transition', type(ex).__name__]],
+                                flat.state_int(model)])
+            free = free and _lock_free(machine, flags)
+        return out, free
+    finally:
+        runner.close()
+
+
 def run_dispatch_on(case, cls, flags, backend):
     """machine.dispatch(event, token, k=token) on several models; observation per call: every model's own callback
     sequence and state (the asyncio classes gather the models: the order ACROSS models is not compared) and the result"""
@@ -1107,6 +1244,11 @@ def _first_diff(a, b, path=''):
     return None if a == b else '%s: %r vs %r' % (path, a, b)
 
 
+def _diff_path(a, b):
+    d = _first_diff(a, b)
+    return 'nowhere' if d is None else str(d).split(':')[0]
+
+
 def run_all_classes(case, run_on):
     """base observation (Machine by name) and one verdict per (class, way, backend)"""
     classes = _classes()
@@ -1129,7 +1271,7 @@ def run_all_classes(case, run_on):
             if fl[3] and not inside:
                 v = 2 if obs == async_ref else [0, 'vs AsyncMachine ' + str(_first_diff(async_ref, obs)), obs]
             else:
-                v = 1 if obs == base else [0, 'vs Machine ' + str(_first_diff(base, obs)), obs]
+                v = 1 if obs == base else [0, 'vs Machine at ' + _diff_path(base, obs), obs]
             verdicts.append([lab, v, 1 if free else 0])
     return [1, base, verdicts]
 
@@ -1143,6 +1285,8 @@ def impl_c09(case):
         return run_all_classes(case, run_dispatch_on)
     if case['sub'] == 'pickle':
         return run_all_classes(case, run_pickle_on)
+    if case['sub'] == 'reconf':
+        return run_all_classes(case, run_reconf_on)
     return run_all_classes(case, run_flat_on)
 
 
@@ -1184,9 +1328,15 @@ def canon(case, obs):
         vs = variants
     vs = [name_exns(v) for v in vs]
     base = vs[0]
-    if vs[1] != base:                    # C09_hsm_flat says this cannot happen on well-formed cases
-        return [1, ['model-variants-differ', vs[0], vs[1]], []]
     inside = async_envelope(case, _base_items(case, base))
+    if vs[1] != base:
+        if case['sub'] != 'reconf' or not inside:
+            # C09_hsm_flat says this cannot happen on well-formed cases with known event names
+            return [1, ['model-variants-differ', vs[0], vs[1]], []]
+        # unknown event names (also: names whose last transition was removed): outside the envelope of
+        # C09_hsm_flat; the nested classes must then follow the hierarchical engine, the others Machine
+        nested_v = [0, 'vs Machine at ' + _diff_path(base, vs[1]), vs[1]]
+        return [1, base, [[lab, (nested_v if fl[1] else 1), 1] for lab, fl in labels()]]
     return [1, base, [[lab, (2 if (fl[3] and not inside) else 1), 1] for lab, fl in labels()]]
 
 
@@ -1241,6 +1391,29 @@ def stats(case, obs, dist):
         return
     base, verdicts = obs[1], obs[2]
     inc('queued_mode_%s' % {0: 'False', 1: 'True', 2: 'model(async)/True(sync)'}[case.get('queued', 1 if case['sub'] == 'queue' else 0)])
+    if case['sub'] == 'reconf':
+        inc('reconf_cases_where_nested_classes_follow_the_hierarchical_engine_on_unknown_names',
+            1 if any(isinstance(v, list) and 'Hierarchical' in lab for lab, v, _ in verdicts) else 0)
+        inc('reconf_calls_with_unknown_name', sum(1 for op in case['ops'] if op[0] == 'trig' and op[2] == UNKNOWN_EVENT))
+        for mode in ('src', 'dst', 'both', 'none'):
+            inc('reconf_remove_transition_filter_' + mode,
+                sum(1 for op in case['ops'] if op[0] == 'remove' and
+                    {(True, False): 'src', (False, True): 'dst', (True, True): 'both', (False, False): 'none'}[
+                        (op[2] is not None, op[3] is not None)] == mode))
+        # a call of the reconfigured trigger from the source a dest-filtered removal applied to
+        st, filt, hit, k = case['init'], {}, 0, 0
+        for op in case['ops']:
+            if op[0] == 'remove':
+                if op[3] is not None:
+                    filt.setdefault(op[1], set()).add(op[2])
+            else:
+                if k < len(base):
+                    srcs = filt.get(op[2], set())
+                    if srcs and (st in srcs or None in srcs):
+                        hit += 1
+                    st = base[k][2]
+                k += 1
+        inc('reconf_calls_of_a_dest_filtered_trigger_from_the_filtered_source', hit)
     inc('class_runs', len(verdicts))
     inc('class_runs_equal_to_Machine', sum(1 for _, v, _f in verdicts if v == 1))
     inc('async_runs_outside_async_envelope_equal_to_AsyncMachine', sum(1 for _, v, _f in verdicts if v == 2))
@@ -1271,6 +1444,17 @@ def stats(case, obs, dist):
 
 def shrink_candidates(case):
     if case['sub'] == 'factory':
+        return
+    if case['sub'] == 'reconf':
+        for i, op in enumerate(case['ops']):
+            c = copy.deepcopy(case)
+            del c['ops'][i]
+            if any(o[0] == 'trig' for o in c['ops']):
+                yield c
+        for p in list(case['env'].get('bypos', {})):
+            c = copy.deepcopy(case)
+            del c['env']['bypos'][p]
+            yield c
         return
     if case['sub'] == 'pickle':
         for i, op in enumerate(case['ops']):
